@@ -24,7 +24,7 @@ STUBS = ["SimClock ('now' over the grid; EAO never reads it)", "PriceFeed (new/d
          "the desk (client loop)"]
 ASSUMPTIONS = [
     "a variable 'belongs to a step in the window' iff at least one of its mapping rows has time_step in the window",
-    "window dates are placed strictly between two grid points (the docstring says 'before', the code '<='; on a grid point the two differ)",
+    "window dates are placed between two grid points or exactly on one; a step whose time point equals the date belongs to the window ('<='), as in the repository's own test_fixing_results (the docstring's 'before' is read that way)",
     "zone-aware grids receive zone-aware window dates",
     "F5 (unchanged value) is claimed only when the held solution is the accepted optimum of the same portfolio, grid and price curve; "
     "if the fixed re-solve reports infeasible and scipy.optimize.milp agrees, the tick is counted inconclusive (solver tolerance), not a violation",
@@ -191,6 +191,14 @@ def gen_plan(rng, run_index, tier, opts):
         if rng.random() < 0.15:
             # other use of the live portfolio between the solve that gave x and the rebuild with the window
             tk["between"] = rng.choice(["to_json", "to_json", "params_tree", "setup_plain", "to_json_assets", "set_timegrid"])
+    # window dates exactly on a grid point: that step belongs to the window (`<=`), as the repository's own test of the feature
+    # (tests/test_optimization.py::test_fixing_results, a date on a point of a daily grid) has it
+    for tk in ticks:
+        if tk["form"] == "date" and not tk.get("date_pos") and 1 <= tk["now"] <= T and rng.random() < 0.2:
+            tp = gi.timepoints[tk["now"] - 1]
+            wall = tp.tz_convert("UTC").tz_localize(None) if tp.tzinfo is not None else tp
+            tk["date"] = dict(tk["date"], v=specs.iso(wall))
+            tk["date_on_grid"] = True
     # (round 11, drawn after everything else)
     all_nodes = sorted({world["nodes"][n]["name"] for a in world["portfolios"][P]["assets"] for n in specs.asset_nodes(world, a)})
     for tk in ticks:
@@ -727,7 +735,7 @@ class Desk:
         if (multi & fixed).any():
             feats.add("multirow")
         cls_sig = ",".join(sorted({name2cls.get(a, "?") for a in set(assets)}))
-        state = "%s|%s|%s|%s|%s|%s|%s" % (tk["form"] + ("/empty" if tk.get("empty") else "/gaps" if tk.get("steps") else "/mid" if tk.get("lo") else "") + ("/skip" if tk.get("skip_nodes") else "") + ("/split" if self.plan.get("split") else "") + ("/soft" if tk.get("soft_solve") else "") + ("/after:" + tk["between"] if tk.get("between") else "") + ("/" + tk["date_tz"] if tk.get("date_tz") else ""), tk["grid_arg"], tk["feed"], x_kind, tk.get("solver_fault", "-"),
+        state = "%s|%s|%s|%s|%s|%s|%s" % (tk["form"] + ("/empty" if tk.get("empty") else "/gaps" if tk.get("steps") else "/mid" if tk.get("lo") else "") + ("/skip" if tk.get("skip_nodes") else "") + ("/ongrid" if tk.get("date_on_grid") else "") + ("/split" if self.plan.get("split") else "") + ("/soft" if tk.get("soft_solve") else "") + ("/after:" + tk["between"] if tk.get("between") else "") + ("/" + tk["date_tz"] if tk.get("date_tz") else ""), tk["grid_arg"], tk["feed"], x_kind, tk.get("solver_fault", "-"),
                                          "restart" if tk.get("restart") else "-", ",".join(sorted(feats)) or "plain")
         trivial = (not feats) and tk["feed"] == "new" and x_kind == "solution" and not tk.get("solver_fault") and not tk.get("restart")
         self.pairs.add(("T|" if trivial else "N|") + state + "|" + cls_sig)
